@@ -171,6 +171,29 @@ class MatMul(OpDef):
         return tape.apply("matmul", nids, {}, const)
 
 
+class MultiMatmul(OpDef):
+    """mg.multi_matmul([a, b, c, ...]) (a composite: MyGrad picks the cheapest parenthesisation and
+    widens 1-D end operands itself); the reference is the left fold of matmul"""
+
+    name = "multi_matmul"
+    nin = None
+    spellings = ("f",)
+    exact = True
+
+    def np(self, a, p):
+        return np.asarray(np.linalg.multi_dot([np.asarray(x) for x in a]))
+
+    def mg(self, mg, spell, a, p, kw):
+        return mg.multi_matmul(list(a), **kw)
+
+    def tape(self, tape, nids, p, const, vals):
+        cur = nids[0]
+        for k, q in enumerate(nids[1:]):
+            last = k == len(nids) - 2
+            cur = tape.apply("matmul", [cur, q], {}, const if last else all(tape.nodes[x].const for x in (cur, q)))
+        return cur
+
+
 class Einsum(OpDef):
     name = "einsum"
     nin = None
@@ -449,6 +472,7 @@ _reg(Reduce("var", domain=lambda a, p: a.size > 1))
 _reg(Reduce("std", domain=lambda a, p: a.size > 1 and np.all(np.std(a, axis=_ax(p.get("axis")), ddof=0) > 0.05)))
 _reg(CumSum())
 _reg(MatMul())
+_reg(MultiMatmul())
 _reg(Einsum())
 _reg(Where())
 _reg(Clip())
